@@ -1,6 +1,13 @@
 -- Root of the `SafeHtml` library: imports everything that must build.
-import SafeHtml.Basic.Bytes
-import SafeHtml.Basic.Utf8
-import SafeHtml.Rx.Match
-import SafeHtml.Generated.Regexes
-import SafeHtml.Generated.Tables
+import SafeHtml.Props.C10
+import SafeHtml.Props.C11
+import SafeHtml.Props.C12
+import SafeHtml.Props.C13
+import SafeHtml.Props.C14
+import SafeHtml.Props.C15
+import SafeHtml.Props.C16
+import SafeHtml.Props.C17
+import SafeHtml.Props.C18
+import SafeHtml.Props.C19
+import SafeHtml.Props.C20
+import SafeHtml.Driver
